@@ -116,6 +116,12 @@ def main(tier, seed):
                 p0 = r.choice(tgt)
                 hist = [("insert", pts, None, "multiple", "compact")] + [h for h in hist[1:] if h[0] not in ("insert", "update_all")]
                 op = ("update", ("S", "tags", [("k", "id")], ("cmp", "==", ("s", p0["tags"]["id"]))), {"time": ("static", p0["time"]), "naive_time": i % len(kinds) < 9}, None)
+        if kind == "update_nochange" and (i // len(kinds)) % 3 == 2:
+            # a call whose steps cancel out: a key set and unset by the same call, on points that never had it (unset wins) - nothing changes; compact rows
+            hist = [("insert", pts, None, "multiple", "compact")] + [h for h in hist[1:] if h[0] not in ("insert", "update_all")]
+            op = r.choice([("update_all", {"tags": ("static", {"zz9": "x"}), "unset_tags": ["zz9"]}),
+                           ("update_all", {"fields": ("static", {"zz9": 1}), "unset_fields": ["zz9"]}),
+                           ("update", ("noop", "tags"), {"tags": ("static", {"zz9": "x"}), "fields": ("static", {"zz8": 2}), "unset_tags": ["zz9"], "unset_fields": ["zz8", "zz7"]}, None)])
         if mode == "a":
             auto = False          # with auto_index the constructor itself reads (and raises) in append-only mode
         other = i % 3 == 1
@@ -282,6 +288,46 @@ def main(tier, seed):
                             pass
                 finally:
                     _tempfile.tempdir = old_tmp
+    # iterators that are started and NOT exhausted (it = iter(db); next(it) - islice, zip, a `for` left by break): whatever an iteration needs,
+    # nothing is in the temp or database directory once the call that produced the value has returned, and the file is as it was
+    partial_runs = 0
+    for what in ("iter(db)", "iter(measurement)", "two iterators", "search result"):
+        for auto in (True, False):
+            d = ck.work / f"partial_{partial_runs}"
+            d.mkdir()
+            tdir = d / "tmp"
+            tdir.mkdir()
+            path = str(d / "db.csv")
+            old_tmp = _tempfile.tempdir
+            _tempfile.tempdir = str(tdir)
+            try:
+                db = tf.TinyFlux(path, auto_index=auto)
+                db.insert_multiple([tf.Point(time=_dt(2020, 1, 1, tzinfo=_tz.utc) + _td(seconds=i), measurement="m1", tags={"k": str(i)}, fields={"a": float(i)})
+                                    for i in range(6)])
+                before = open(path, "rb").read()
+                keep = []
+                if what == "iter(db)":
+                    it = iter(db)
+                    keep += [it, next(it), next(it)]
+                elif what == "iter(measurement)":
+                    it = iter(db.measurement("m1"))
+                    keep += [it, next(it)]
+                elif what == "two iterators":
+                    a_, b_ = iter(db), iter(db.measurement("m1"))
+                    keep += [a_, b_, next(a_), next(b_)]
+                else:
+                    keep.append(db.search(tf.TagQuery().k == "1"))
+                partial_runs += 1
+                after = open(path, "rb").read()
+                left = sorted(_os.listdir(tdir)), sorted(x for x in _os.listdir(d) if x not in ("db.csv", "tmp"))
+                if (after != before or left != ([], [])) and len(direct_bad) < 4:
+                    direct_bad.append({"kind": "failing-input", "operation_kind": f"{what}: started, not exhausted, still referenced", "auto_index": auto,
+                                       "why": "a started iteration changed the bytes of the database file" if after != before else f"files left behind while a started iterator is alive: {left}",
+                                       "bytes_before": len(before), "bytes_after": len(after)})
+                del keep
+                db.close()
+            finally:
+                _tempfile.tempdir = old_tmp
     # "once it has returned or RAISED" includes what is not an Exception: a callable or a query test interrupted by KeyboardInterrupt,
     # ending the program with SystemExit, or closed as a generator (GeneratorExit) - nothing may stay behind and the file is as it was
     interrupted_runs = 0
@@ -368,7 +414,7 @@ def main(tier, seed):
             "run-time proxies harness/ioproxy.py; byte comparison of the database file and listings of a private temp directory and the database directory",
             "Print Assumptions: " + json.dumps(b["assumptions"])],
         "theorems": b["theorems"], "forbidden_tokens_found": b["forbidden"],
-        "evaluations": n + fault_runs + closed_runs + interrupted_runs + found_runs, "fault_injections": fault_runs, "reads_on_a_closed_database": closed_runs, "reads_on_files_as_found": found_runs, "operations_interrupted_by_a_non_Exception": interrupted_runs, "distinct_nontrivial": len(seen),
+        "evaluations": n + fault_runs + closed_runs + interrupted_runs + found_runs, "fault_injections": fault_runs, "reads_on_a_closed_database": closed_runs, "reads_on_files_as_found": found_runs, "started_iterators_kept_alive": partial_runs, "operations_interrupted_by_a_non_Exception": interrupted_runs, "distinct_nontrivial": len(seen),
         "rule": "sampled (history, operation) pairs on a CSV database reopened in access modes r+ / r / a / w+; operation kinds: reads, getters, "
                 "reindex, len/iteration, handle reads, removals and updates that match or change nothing, and (for the leftover rule and read-only modes) real "
                 "writes including ones that raise; reads / getters / reindex / a no-match removal on a database object after close() in every access mode; checked directly: bytes of the file before/after, listing of a private temp directory (every second case "
